@@ -304,6 +304,7 @@ OPTSETS = [
     ("flags", {"nonewfileuid": True, "skipprofile": True}),
     ("none", {}),
 ]
+DEEP_SETS = ["version-102", "version-default", "version-220", "format", "url-plain", "none"]
 PASSWORD = "s3cr3t-p4ssw0rd"
 UUID_RE = re.compile(r"[0-9A-F]{8}-[0-9A-F]{4}-[0-9A-F]{4}-[0-9A-F]{4}-[0-9A-F]{12}")
 
@@ -415,7 +416,12 @@ def persist_work(chunk):
                 preset, first = True, None
             sysm = PersistSystem(env, preset)
             events = [(n, s, m) for n in (N1, N2) for (s, _) in OPTSETS for m in ("write", "dryrun-write")] + [(N1, "none", "plain")]
-            if first is None:
+            if isinstance(first, tuple) and first and first[0] == "deep":
+                # depth-3 histories of writing runs over the option sets that interact through defaults (version, format, url)
+                _, f0 = first
+                deep_events = [(n, s_, "write") for n in (N1, N2) for s_ in DEEP_SETS]
+                r = xstate.bfs(_Sub(sysm, f0), deep_events, depth - 1, t)
+            elif first is None:
                 # depth 1: every event from the initial state
                 r = xstate.bfs(sysm, events, 1, t)
             else:
@@ -425,7 +431,7 @@ def persist_work(chunk):
             t.count("states", r["states"])
             t.count("transitions", r["transitions"])
             if r["samples"]:
-                t.sample({"part": "persist", "history": ([list(first)] if first else []) + [r["samples"][0][0]], "state_key": r["samples"][0][1][:200]})
+                t.sample({"part": "persist", "first": repr(first), "history": r["samples"][0][0], "state_key": r["samples"][0][1][:200]})
     finally:
         env.close()
     return t
@@ -453,7 +459,9 @@ def run(ctx):
     pj = precedence_jobs(ctx.thorough)
     depth = 2 if ctx.quick else 3
     firsts = [(n, s, m) for n in (N1, N2) for (s, _) in OPTSETS for m in ("write",)]
-    jobs = [("persist", (None, 1)), ("persist", ("preset", 1))] + [("persist", (f, depth)) for f in firsts]
+    jobs = [("persist", (None, 1)), ("persist", ("preset", 1))] + [("persist", (f, 2)) for f in firsts]
+    if ctx.thorough:
+        jobs += [("persist", (("deep", (n, s_, "write")), 3)) for n in (N1, N2) for s_ in DEEP_SETS]
     rot = ctx.seed % len(pj)
     pj = pj[rot:] + pj[:rot]
     jobs += [("precgroup", pj[i : i + 40]) for i in range(0, len(pj), 40)]
@@ -470,7 +478,7 @@ def run(ctx):
         "precedence_runs": tally.counts["precedence-runs"],
         "rule": "precedence: 23 options (12 string, 4 boolean, 6 account lists, version) x every subset of their sources (CLI, user file, FI db, OFX Home where applicable) with a distinct marker per "
         "source, + every pair of options x every pair of " + ("sources" if ctx.thorough else "different sources") + "; each run writes the two configuration files, re-imports the script module and compares "
-        f"merge_config's mapping with the model (highest-ranking source present wins); persistence: BFS to depth {depth} over 57 events (2 nicknames x 14 option sets x write/dry-run write, + a plain run), "
+        f"merge_config's mapping with the model (highest-ranking source present wins); persistence: BFS to depth 2" + ("" if ctx.quick else " (and to depth 3 over the 12 writing events of the 6 option sets that interact through defaults)") + " over 57 events (2 nicknames x 14 option sets x write/dry-run write, + a plain run), "
         "from an empty user file and (depth 1) from a hand-edited one that overrides FI-database booleans with false; state = text of ofxget.cfg (generated UUIDs normalised; sub-trees below non-writing first events coincide with the initial state's and are explored once); after every writing run a fresh plain "
         "run must give the same effective value for every persistable option, the other nickname must be unaffected, the password must not be in the file, a dry run must leave the file byte-identical, "
         "the default CLIENTUID must be created once and never change",
